@@ -33,6 +33,8 @@ class Oblig:
 
 
 FEAS_TIMEOUT_MS = 2000
+LAZY_SPEC = False
+_ALIVE = []
 MAX_INLINE_DEPTH = 14
 
 
@@ -54,6 +56,7 @@ class Interp:
         from . import builtins as B
         self.B = B
         self._feas_solver = None
+        self._inc = None
         self.lazy = 0
         self.cur_entry = None
 
@@ -65,13 +68,34 @@ class Interp:
         return z3.Int(self.w.fresh(base))
 
     def feasible(self, st, cond=None):
+        """Is pc (and cond) satisfiable?  `unknown` counts as feasible (sound: paths are only dropped on unsat).
+        Incremental: one push level per path-condition conjunct, shared along the DFS of paths."""
         self.stats["feas_checks"] += 1
-        s = z3.Solver()
-        s.set("timeout", FEAS_TIMEOUT_MS)
-        s.add(*st.pc)
-        if cond is not None:
-            s.add(cond)
-        return s.check() != z3.unsat
+        pc = [c for c in st.pc if id(c) not in st.qfacts]   # quantified facts left out (weakening is sound here)
+        if self._inc is None:
+            sv = z3.Solver()
+            sv.set("timeout", FEAS_TIMEOUT_MS)
+            self._inc = [sv, []]
+        sv, asserted = self._inc
+        L = 0
+        n = min(len(asserted), len(pc))
+        while L < n and asserted[L] == id(pc[L]):
+            L += 1
+        if len(asserted) > L:
+            sv.pop(len(asserted) - L)
+            del asserted[L:]
+        for c in pc[L:]:
+            sv.push()
+            sv.add(c)
+            asserted.append(id(c))
+            _ALIVE.append(c)
+        if cond is None:
+            return sv.check() != z3.unsat
+        sv.push()
+        sv.add(cond)
+        r = sv.check()
+        sv.pop()
+        return r != z3.unsat
 
     def branch(self, st, cond, kt, kf):
         cond = z3.simplify(cond)
@@ -79,7 +103,13 @@ class Interp:
             return kt(st)
         if z3.is_false(cond):
             return kf(st)
-        if self.lazy:
+        ids = {c.get_id() for c in st.pc}
+        if cond.get_id() in ids:
+            return kt(st)
+        ncond = z3.simplify(z3.Not(cond))
+        if ncond.get_id() in ids:
+            return kf(st)
+        if self.lazy and LAZY_SPEC:
             # spec mode: explore both sides without solver calls; infeasible raise-outcomes are
             # filtered where the spec value is collected
             s1 = st.fork(); s1.pc.append(cond)
@@ -249,17 +279,12 @@ class Interp:
              "collections.deque", "collections.OrderedDict"]
 
     def sized_ref_truthy(self, st, t):
-        ids = set()
-        for b in self.SIZED:
-            for s in self.w.subclasses.get(b, []):
-                ids.add(self.w.class_ids[s])
         c = cls_of(get_loc(t))
-        base = z3.If(z3.Or([c == i for i in sorted(ids)]), st.read(LEN, get_loc(t)) > 0, z3.BoolVal(True))
+        base = z3.If(self.w.cls_in(c, self.SIZED), st.read(LEN, get_loc(t)) > 0, z3.BoolVal(True))
         # user classes with __len__ registered by the sidecar: (class, lambda st, loc -> Int)
         for clsq, fn in self.B.USER_LEN.items():
-            sub = [self.w.class_ids[s] for s in self.w.subclasses.get(clsq, [])]
-            if sub:
-                base = z3.If(z3.Or([c == i for i in sub]), fn(self, st, get_loc(t)) > 0, base)
+            if clsq in self.w.subclasses:
+                base = z3.If(self.w.cls_in(c, [clsq]), fn(self, st, get_loc(t)) > 0, base)
         return base
 
     def mk_exc(self, st, clsq, args=()):
@@ -587,6 +612,11 @@ class Interp:
         mod = self.w.facts["modules"].get(fr.module)
         if mod and name in mod["globals"]:
             return self.from_fact(mod["globals"][name])
+        if fr.cls and not fr.spec:
+            # class-body names (used by default argument values such as DEFAULT_ALLOWED_METHODS)
+            r = self.w.find_attr(fr.cls, name)
+            if r is not None and r[1]["kind"] == "const":
+                return self.from_fact(r[1]["value"])
         if name in self.B.BUILTIN_NAMES:
             return BuiltinV(name)
         bq = "builtins." + name
@@ -1165,6 +1195,9 @@ class Interp:
         if fr is None:
             fr = Frame(module, None, "$spec", spec=True, specenv={})
         npc = len(s0.pc)
+        outer = self.lazy == 0
+        if outer:
+            self._spec_raises = []
         self.lazy += 1
         try:
             outs = self.ev(s0, node, fr, _val(None))
@@ -1173,12 +1206,22 @@ class Interp:
         good = []
         for o in outs:
             if o.kind == "raise":
-                if self.feasible(o.st):
-                    raise SpecError(f"spec expression {expr if isinstance(expr, str) else ast.unparse(node)!r} may raise ({o.val}) trace={o.st.trace[-4:]}")
+                # feasibility of partial-spec branches is decided once, at the outermost clause
+                self._spec_raises.append((o.st, o.val, expr if isinstance(expr, str) else ast.unparse(node)))
                 continue
             if o.kind != "val":
                 raise SpecError(f"spec expression escapes with {o.kind}")
             good.append(o)
+        if outer and self._spec_raises:
+            rs, self._spec_raises = self._spec_raises, []
+            sv = z3.Solver(); sv.set("timeout", 5000)
+            sv.add(*[c for c in s0.pc[:npc] if id(c) not in s0.qfacts])
+            sv.add(z3.Or([z3.And([c for c in r_st.pc[npc:] if id(c) not in r_st.qfacts] or [z3.BoolVal(True)]) for r_st, _, _ in rs]))
+            self.stats["feas_checks"] += 1
+            if sv.check() != z3.unsat:
+                for r_st, r_val, r_expr in rs:
+                    if self.feasible(r_st):
+                        raise SpecError(f"spec expression {r_expr!r} may raise ({r_val}) trace={r_st.trace[-4:]}")
         if not good:
             return Sym(FALSE)          # every branch infeasible: pc is unsat, any value will do
         self._lift_facts(st, good, npc)
